@@ -55,10 +55,16 @@ Section Purity.
     apply plan_op_ext. exact Hg.
   Qed.
 
+  Theorem pipeline_cls_ext mk_cls r1 r2 scope_id m scopes stats :
+    same_resolution r1 r2 ->
+    pipeline_cls mk_cls matches r1 scope_id m scopes stats
+    = pipeline_cls mk_cls matches r2 scope_id m scopes stats.
+  Proof.
+    intros H. unfold pipeline_cls, plan_checked_cls. rewrite (plan_ext r1 r2 _ _ _ _ _ H). reflexivity.
+  Qed.
+
   Theorem pipeline_ext r1 r2 scope_id m scopes stats :
     same_resolution r1 r2 ->
     pipeline matches r1 scope_id m scopes stats = pipeline matches r2 scope_id m scopes stats.
-  Proof.
-    intros H. unfold pipeline, plan_checked. rewrite (plan_ext r1 r2 _ _ _ _ _ H). reflexivity.
-  Qed.
+  Proof. apply pipeline_cls_ext. Qed.
 End Purity.
